@@ -85,6 +85,9 @@ type saveCase struct {
 	limOn  bool
 	limVar int
 	limit  float64
+	// the directory already held the results of an earlier execution of the same scenario: detail files of that
+	// execution's (differently sized) solution sets may remain; everything this execution writes is judged as usual
+	reexec bool
 }
 
 func (sc saveCase) ext() string { return strings.ToLower(sc.otype) }
@@ -484,7 +487,7 @@ func examineSaved(c *Ctx, nm *namer, ref *Ref, sc saveCase, dir string, died str
 	}
 	if died == "" {
 		for _, f := range listing {
-			if !claimed[f] {
+			if !claimed[f] && !sc.reexec {
 				fail("C12: the output directory holds the runs' summaries (and detail files) and nothing else", "saved:unexpected-file",
 					fmt.Sprintf("file %q belongs to no run; directory: %q", f, listing))
 				break
@@ -495,8 +498,17 @@ func examineSaved(c *Ctx, nm *namer, ref *Ref, sc saveCase, dir string, died str
 	if died != "" {
 		res.WriteString("panic")
 	} else {
-		fmt.Fprintf(&res, "%d", len(listing))
-		for _, f := range listing {
+		shown := listing
+		if sc.reexec { // files an earlier execution left behind are not this execution's: the model is shown what this one wrote
+			shown = nil
+			for _, f := range listing {
+				if claimed[f] {
+					shown = append(shown, f)
+				}
+			}
+		}
+		fmt.Fprintf(&res, "%d", len(shown))
+		for _, f := range shown {
 			res.WriteString(" " + pct(f))
 		}
 		for _, ct := range contents {
@@ -1286,6 +1298,7 @@ type runConfig struct {
 	fam, annealer, otype, level, name, ds string
 	R, iters                              int
 	conc                                  int // MaximumConcurrentRunNumber (0 = leave crem's default, 1)
+	reuseWork                             string // executeScenario: run in this scratch directory again (set by oneSavedConfig)
 	// a limit on one decision variable: [Model.Parameters] Maximum<variable> = limit
 	limOn  bool
 	limVar int
@@ -1373,13 +1386,22 @@ func (rc runConfig) line() string {
 // The layout of one execution: <work>/{case.json, record.jsonl, child/ (the child harness's own -out), cwd/ (the
 // child's working directory), out/ (the output directory when an absolute OutputPath is configured)}.
 func executeScenario(c *Ctx, rc runConfig, tag string) (runs []runTruth, work, dir string, died string, ok bool) {
-	work, err := os.MkdirTemp(c.Out, "run")
-	must(err)
-	if abs, e := filepath.Abs(work); e == nil {
-		work = abs
+	var err error
+	cwd := ""
+	if rc.reuseWork != "" {
+		// a RE-EXECUTION of the scenario into the directories an earlier execution used (its result files are still there)
+		work = rc.reuseWork
+		cwd = filepath.Join(work, "cwd")
+		os.Remove(filepath.Join(work, "record.jsonl"))
+	} else {
+		work, err = os.MkdirTemp(c.Out, "run")
+		must(err)
+		if abs, e := filepath.Abs(work); e == nil {
+			work = abs
+		}
+		cwd = filepath.Join(work, "cwd")
+		must(os.Mkdir(cwd, 0o755))
 	}
-	cwd := filepath.Join(work, "cwd")
-	must(os.Mkdir(cwd, 0o755))
 	switch rc.pathMode {
 	case pathGiven:
 		dir = filepath.Join(work, "out")
@@ -1477,7 +1499,20 @@ func oneSavedConfig(c *Ctx, nm *namer, refs map[string]*Ref, rc runConfig, reps 
 	// the `save` line does not hold the whole configuration (limit, omitted keys, concurrency): it goes along as a comment
 	sink.context = []string{"# configuration: " + rc.line()}
 	for rep := 0; rep < reps; rep++ {
-		runs, work, dir, died, ok := executeScenario(c, rc, rc.line())
+		// every fourth repetition is a RE-EXECUTION: the same scenario first runs with a larger iteration budget (a bigger
+		// solution set, longer documents) into the same directories; the files judged are those of the second execution
+		rcx := rc
+		if rep%4 == 3 {
+			pre := rc
+			pre.iters = rc.iters*3 + 250
+			if _, w0, _, died0, ok0 := executeScenario(c, pre, pre.line()); ok0 && died0 == "" {
+				rcx.reuseWork = w0
+				c.Stat("saved-runs: re-execution into the directories of an earlier execution")
+			} else if w0 != "" {
+				os.RemoveAll(w0)
+			}
+		}
+		runs, work, dir, died, ok := executeScenario(c, rcx, rc.line())
 		if !ok {
 			os.RemoveAll(work)
 			if died == "attempt-limit" {
@@ -1498,7 +1533,7 @@ func oneSavedConfig(c *Ctx, nm *namer, refs map[string]*Ref, rc runConfig, reps 
 			c.Note(fmt.Sprintf("BOUNDARY saved-runs: configuration [%s] did not finish within 60 s (%d finish events were recorded); left out", rc.line(), len(runs)))
 			return
 		}
-		sc := saveCase{fam: rc.fam, otype: rc.otype, level: rc.level, name: rc.name, R: rc.R, runs: runs, limOn: rc.limOn, limVar: rc.limVar, limit: rc.limit}
+		sc := saveCase{fam: rc.fam, otype: rc.otype, level: rc.level, name: rc.name, R: rc.R, runs: runs, limOn: rc.limOn, limVar: rc.limVar, limit: rc.limit, reexec: rcx.reuseWork != ""}
 		if died == "" {
 			seenRuns := map[int]bool{}
 			for _, rt := range runs {
